@@ -112,6 +112,10 @@ class GateDirective:
         return await next_directive(parent_node, argument_definition_node, argument_node, value, ctx)
 
 
+class NoOpDirective:
+    """Implementation without hooks for directives that are only declared/applied."""
+
+
 class RecDirective:
     """@vtrec(...): records the coerced directive arguments it receives (query-side, FIELD)."""
 
@@ -136,6 +140,9 @@ class Bundle:
             Directive("vtgate", schema_name=sn)(GateDirective())
         if "vtrec" in s.directives:
             Directive("vtrec", schema_name=sn)(RecDirective())
+        for d in s.directives.values():
+            if d.name not in ("vtgate", "vtrec") and getattr(d, "impl", "noop") == "noop":
+                Directive(d.name, schema_name=sn)(NoOpDirective())
         for t in s.types.values():
             if t.kind == "SCALAR":
                 Scalar(t.name, schema_name=sn)(EvenScalar() if t.impl == "even" else TagScalar())
